@@ -152,10 +152,13 @@ class Member:
                                     f"constant initializer for {self._description}") from e
             else:
                 try:
-                    self._init_as_const = Const.cast(init or 0)
+                    init_as_const = Const.cast(init or 0)
                 except TypeError:
                     raise TypeError(f"Port member initial value {self._init!r} is not a valid "
                                     f"constant initializer for {shape}")
+                # Like `Signal(shape, init=init)`, truncate or extend the constant to the shape
+                # of the port, so that it equals the initial value of the created signal.
+                self._init_as_const = Const(init_as_const.value, shape)
         if self.is_signature:
             if self._init is not None:
                 raise ValueError(f"A signature member cannot have an initial value")
